@@ -36,7 +36,7 @@ import nfc.llcp
 import nfc.snep
 
 from vlib import p2p, vsched
-from vlib.engine import Leg, Violation, unexpected
+from vlib.engine import Leg, Violation, unexpected, twin_env
 
 PROPERTY = "C06"
 LEVEL = "exploration"
@@ -1256,3 +1256,10 @@ LEGS = [
     _leg("snep-get", snep_case("get"), 700, 10000),
     _leg("handover", ho_case(), 500, 8000),
 ]
+
+# the same searches with every nfc logger enabled down to the lowest level
+# (code that only runs, or only evaluates its arguments, when logging is on)
+_byl = dict((lg.name, lg) for lg in LEGS)
+LEGS += [twin_env(_byl[n], "log", {"VERIF_LOG": "debug"}, quick=q, thorough=t,
+                  shards_quick=2)
+         for n, q, t in [('snep-put', 100, 1000), ('handover', 60, 600)] if n in _byl]
